@@ -1278,3 +1278,19 @@ example := edgeFace_row_ordered (n := 7) (t := [[0, 1, 2], [2, 1, 3], [4, 5, 6]]
     (FE := [[0, 1, 2], [1, 3, 4], [5, 6, 7]]) (N := [3, 3, 3]) (nEdge := 8) (by decide) 1 (by decide)
 
 end UxVerif.C03
+
+namespace UxVerif.C03
+open UxVerif UxVerif.Incidence
+
+/-- **remark: the Euler count does not determine the holes.**  A closed tetrahedron (V, E, F = 4, 6, 4) and two
+    isolated triangles (6, 6, 2) both have V − E + F = 2 (in general V − E + F = 2·components − boundary loops), and
+    both meet `Pre`; the first has no hole edge, in the second EVERY edge is one.  Hole edges are the
+    single-incidence edges (`holes_ok`), whatever the counts say. -/
+theorem euler_count_does_not_determine_holes :
+    ((4 : Int) - 6 + 4 = 2 ∧ (6 : Int) - 6 + 2 = 2) ∧
+    Pre 4 [[0, 1, 2], [0, 3, 1], [1, 3, 2], [2, 3, 0]] [[0, 1, 2], [3, 4, 0], [4, 5, 1], [5, 3, 2]] [3, 3, 3, 3] 6 ∧
+    Pre 6 [[0, 1, 2], [3, 4, 5]] [[0, 1, 2], [3, 4, 5]] [3, 3] 6 ∧
+    holeEdges (edgeFace [[0, 1, 2], [3, 4, 0], [4, 5, 1], [5, 3, 2]] [3, 3, 3, 3] 6) = [] ∧
+    holeEdges (edgeFace [[0, 1, 2], [3, 4, 5]] [3, 3] 6) = [0, 1, 2, 3, 4, 5] := by decide
+
+end UxVerif.C03
